@@ -399,6 +399,33 @@ def run_chain(case, rec):
         bad.append("with_contexts=False gives different frames (frame object, line, origin or flags)")
     if any(f.contexts for f in st2.frames):
         bad.append("with_contexts=False left contexts")
+    # ... and the frames are the frames even when the context analysis of one of them FAILS (the failure is recorded)
+    if st.frames:
+        from stackscope import _extract as _ex
+        orig_ctx = _ex.contexts_active_in_frame
+        victim = st.frames[0].pyframe
+
+        class CtxFault(KeyError):
+            pass
+
+        def failing(pyframe, *a, **k):
+            if pyframe is victim:
+                raise CtxFault("self")
+            return orig_ctx(pyframe, *a, **k)
+        _ex.contexts_active_in_frame = failing
+        try:
+            st3 = stackscope.extract(x)
+        except BaseException as ex:
+            bad.append("context analysis of the outermost frame fails: extract raised %r" % (ex,))
+            st3 = None
+        finally:
+            _ex.contexts_active_in_frame = orig_ctx
+        if st3 is not None:
+            if [f.pyframe for f in st3.frames] != [f.pyframe for f in st.frames] or st3.leaf is not st.leaf:
+                bad.append("context analysis of the outermost frame fails: frames %d, fault-free %d" % (len(st3.frames), len(st.frames)))
+            errs = [st3.error] if st3.error is not None and not hasattr(st3.error, "exceptions") else list(getattr(st3.error, "exceptions", []))
+            if not any(isinstance(e, CtxFault) for e in errs):
+                bad.append("context analysis of the outermost frame fails: the failure is not in Stack.error (%r)" % (st3.error,))
     # C16: origins and extract_outermost
     c16 = []
     for idx, fr in enumerate(st.frames):
